@@ -41,6 +41,9 @@ def emission_like_program(rng, n_e, n_p, length):
     return prog
 
 
+SHARED = {}
+
+
 def metric_events(circuit, rng):
     import graphiq.metrics as gm
     evs = []
@@ -49,7 +52,14 @@ def metric_events(circuit, rng):
         for default in (True, False):
             a, b = (1, 0) if default else (rng.randint(2, 5), rng.randint(0, 7))
             try:
-                m = cls() if default else cls(**{PENALTY_KW[name]: (lambda x, a=a, b=b: a * x + b)})
+                if default:
+                    # the default-argument metric objects live for the whole run and see every circuit (whatever a metric
+                    # object keeps between evaluations is then in play)
+                    if name not in SHARED:
+                        SHARED[name] = cls()
+                    m = SHARED[name]
+                else:
+                    m = cls(**{PENALTY_KW[name]: (lambda x, a=a, b=b: a * x + b)})
                 v = m.evaluate(None, circuit)
                 out = {"err": "", "v": int(v)}
             except Exception as ex:
